@@ -55,10 +55,23 @@ MCReportCheck(w, ps) ==
 
 \* ... and the i-th of them reaches failoverStatus.report
 MCReportApply(i, pref) ==
-  /\ i \in 1..Len(pend)
+  /\ i \in 1..Len(pend) /\ pend[i].k = "report"
   /\ DoReportApply(i)
   /\ pref = (IF leader' # leader THEN leader' ELSE "none")
   /\ Step([a |-> "ReportApply", i |-> i, pref |-> pref])
+
+\* the same for ShrinkISR / ExpandISR
+MCISRCheck(k, r, ps) ==
+  LET p == Pair(ps) IN
+  /\ Len(pend) < MaxPend
+  /\ k = "shrink" => r # p[1]
+  /\ DoISRCheck(k, r, p[1], p[2])
+  /\ Step([a |-> "ISRCheck", k |-> k, r |-> r, ps |-> ps, l |-> p[1], e |-> p[2]])
+
+MCISRApply(i) ==
+  /\ i \in 1..Len(pend)
+  /\ DoISRApply(i)
+  /\ Step([a |-> "ISRApply", i |-> i])
 
 MCShrink(r, ps) ==
   LET p == Pair(ps) IN
@@ -79,6 +92,8 @@ MCNext ==
   \/ \E w \in Reporters, ps \in PairSels, pref \in Replicas \cup {"none"} : MCReport(w, ps, pref)
   \/ \E w \in Reporters, ps \in PairSels : MCReportCheck(w, ps)
   \/ \E i \in 1..MaxPend, pref \in Replicas \cup {"none"} : MCReportApply(i, pref)
+  \/ \E k \in {"shrink", "expand"}, r \in Replicas, ps \in PairSels : MCISRCheck(k, r, ps)
+  \/ \E i \in 1..MaxPend : MCISRApply(i)
   \/ \E r \in Replicas, ps \in PairSels : MCShrink(r, ps)
   \/ \E r \in Replicas, ps \in PairSels : MCExpand(r, ps)
   \/ MCExpire
@@ -96,6 +111,8 @@ StepOK ==
   CASE a.a = "Report" -> P_ReportLeader(a.w, a.l, a.e)
     [] a.a = "ReportCheck" -> P_ReportCheck(a.w, a.l, a.e)
     [] a.a = "ReportApply" -> P_ReportApply(a.i)
+    [] a.a = "ISRCheck" -> P_ReportCheck(a.r, a.l, a.e)
+    [] a.a = "ISRApply" -> P_ISRApply(a.i)
     [] a.a = "Shrink" -> P_ShrinkISR(a.r, a.l, a.e)
     [] a.a = "Expand" -> P_ExpandISR(a.r, a.l, a.e)
     [] a.a = "Remove" -> P_RemoveStream
